@@ -57,6 +57,17 @@ WRAPPER_USERS = {
 }
 
 
+def _handover_pushers(a):
+    """frame-pushing functions that store into <frame>.cutseen: declared hand-overs (transparent frames), verified by R3"""
+    out = []
+    for f in pushing_functions(a):
+        if f.qualname.endswith('.cut') or f.name == '__init__':
+            continue
+        if any(isinstance(n, ast.Assign) and any(isinstance(t, ast.Attribute) and t.attr == 'cutseen' for t in n.targets) for n in walk_no_defs(f.node)):
+            out.append(f)
+    return out
+
+
 def r1_flag_ownership(a, tier):
     rep = RuleReport(
         'C05.R1',
@@ -68,9 +79,8 @@ def r1_flag_ownership(a, tier):
     allowed = {
         'tatsu.contexts.state.ParseState.__init__': 'False',
         f'{CORE}.cut': 'True',
-        f'{CTX}.isolate': 'True',
-        f'{CTX}.skipgroup': 'True',
     }
+    handover_pushers = {f.qualname for f in _handover_pushers(a)}
     seen = set()
     for f in a.p.functions.values():
         for n in walk_no_defs(f.node):
@@ -85,6 +95,8 @@ def r1_flag_ownership(a, tier):
                     rep.add({'writer': f.qualname, 'store': norm(n)})
                     seen.add(f.qualname)
                     want = allowed.get(f.qualname)
+                    if want is None and f.qualname in handover_pushers and val == 'True':
+                        continue  # a frame pusher that hands the flag of its own frame on: verified as 'transparent' by R3
                     if want is None:
                         rep.fail(f.qualname, f'cutseen-writer:{norm(n)}', f'`{norm(n)}` writes the cut flag outside cut(): '
                                  f'a frame can gain or lose a commit it did not execute', f'{f.module.relpath}:{n.lineno}')
@@ -136,9 +148,10 @@ def r1_flag_ownership(a, tier):
 class ScopeSem(Semantics):
     """State = (depth, frozenset(flags)).  Records the depth at which bodies are evaluated."""
 
-    def __init__(self, a, fn):
+    def __init__(self, a, fn, fixed: dict | None = None):
         self.a = a
         self.fn = fn
+        self.fixed = fixed or {}  # parameters of fn whose value is the same constant at every call site
         self.body_depths: list[tuple[int, int]] = []
         self.undo_vars: set[str] = set()
         for n in walk_no_defs(fn.node):
@@ -174,6 +187,8 @@ class ScopeSem(Semantics):
         depth, flags = state
         if fn is self.fn and self._is_cut_test(fn, test):
             return [(depth, frozenset(flags | {'cut'}))], [(depth, frozenset(flags | {'nocut'}))]
+        if fn is self.fn and isinstance(test, ast.Name) and test.id in self.fixed:
+            return ([state], []) if self.fixed[test.id] else ([], [state])
         return [state], [state]
 
     def _is_cut_test(self, fn, test) -> bool:
@@ -186,8 +201,8 @@ class ScopeSem(Semantics):
         return False
 
 
-def _scope_outcomes(a, fn):
-    sem = ScopeSem(a, fn)
+def _scope_outcomes(a, fn, fixed=None):
+    sem = ScopeSem(a, fn, fixed)
     ex = Executor(a.p, a.ct, a.resolver, sem, raises=a.raises)
     is_cm = any(d.split('.')[-1] == 'contextmanager' for d in fn.decorators)
 
@@ -241,9 +256,33 @@ def r2_scope_protocol(a, tier):
     return rep
 
 
-def frame_signature(a, f):
+def constant_parameters(a, f) -> dict:
+    """parameters of f with a literal bool default that no call in the package passes explicitly (they have that value always)"""
+    out = {}
+    args = f.node.args
+    cands = list(zip(args.kwonlyargs, args.kw_defaults)) + list(zip(args.args[len(args.args) - len(args.defaults):], args.defaults))
+    for p, d in cands:
+        if isinstance(d, ast.Constant) and isinstance(d.value, bool):
+            out[p.arg] = d.value
+    if not out:
+        return out
+    npos = len(args.args) - (1 if f.cls is not None else 0)
+    for g in a.p.functions.values():
+        for n in walk_no_defs(g.node):
+            if isinstance(n, ast.Call) and ((isinstance(n.func, ast.Attribute) and n.func.attr == f.name) or
+                                            (isinstance(n.func, ast.Name) and n.func.id == f.name)):
+                for k in n.keywords:
+                    if k.arg is None:
+                        return {}
+                    out.pop(k.arg, None)
+                if len(n.args) > npos - len(args.defaults):
+                    return {}
+    return out
+
+
+def frame_signature(a, f, fixed=None):
     """what happens to the frame(s) a pusher opens, per exit: (exit kind, exception family, closing operations, net depth)"""
-    outs, _sem = _scope_outcomes(a, f)
+    outs, _sem = _scope_outcomes(a, f, fixed)
     sig = set()
     for o in outs:
         _d, flags = o.state
@@ -258,12 +297,12 @@ def _check_transparent(a, rep, iso):
         def stmt(self, ex, fn, node, state):
             depth, flags = state
             if fn is iso and isinstance(node, ast.Assign):
-                if isinstance(node.value, ast.Attribute) and node.value.attr == 'cutseen' and 'closed:pop' not in flags \
-                        and 'closed:undo' not in flags and isinstance(node.targets[0], ast.Name):
+                if isinstance(node.value, ast.Attribute) and node.value.attr == 'cutseen' and not any(x.startswith('closed:') for x in flags) \
+                        and isinstance(node.targets[0], ast.Name):
                     return (depth, frozenset(flags | {'saved'}))
                 t = node.targets[0]
                 if isinstance(t, ast.Attribute) and t.attr == 'cutseen':
-                    if ('closed:pop' in flags or 'closed:undo' in flags) and 'saved' in flags:
+                    if any(x.startswith('closed:') for x in flags) and 'saved' in flags:
                         return (depth, frozenset(flags | {'handed'}))
                     return (depth, frozenset(flags | {'bad-handover'}))
             return state
@@ -308,8 +347,11 @@ def r3_frame_classification(a, tier):
                 reviewed_sigs[q] = signature(a.p.functions[q])
             except Exception:  # noqa: BLE001
                 pass
+    derived_transparent = {f.qualname: f for f in _handover_pushers(a)}
     for f in pushing_functions(a):
         cls = FRAME_CLASSES.get(f.qualname)
+        if cls is None and f.qualname in derived_transparent:
+            cls = 'transparent (derived): stores the flag of its own frame into the enclosing frame; verified below'
         if cls is None:
             # every exit treats the frame as some exit of a reviewed barrier / wrapper does (push ... merge | undo + re-raise, written
             # with explicit calls instead of the context manager): classified like it
@@ -320,6 +362,18 @@ def r3_frame_classification(a, tier):
                 twin = None
             if twin:
                 cls = f'like {twin.split(".")[-1]}: {FRAME_CLASSES[twin]}'
+                if FRAME_CLASSES[twin].startswith('wrapper'):
+                    # a frame that drops the flag when it is merged/popped is sound only under a construct that is a cut scope or a
+                    # rule boundary itself; the generator wraps NON-scope constructs (groups, names ...) in the context managers it emits
+                    gen = a.p.modules.get('tatsu.ngcodegen.ngparser_gen')
+                    emitted = gen is not None and any(isinstance(n, ast.Attribute) and n.attr in (f.name, '_' + f.name) and isinstance(n.value, ast.Name)
+                                                      and n.value.id == 'Ctx' for n in ast.walk(gen.tree))
+                    if emitted:
+                        rep.add({'pusher': f.qualname, 'class': cls, 'emitted_by_generator': True})
+                        rep.fail(f.qualname, 'flag-dropping-frame-emitted', f'{f.name}() evaluates its block in a frame that is merged/undone '
+                                 f'without handing cutseen on (like statescope) and the parser generator emits it around a construct that is not '
+                                 f'a cut scope: a cut inside the block is lost for the enclosing choice/optional/repetition', f.loc)
+                        continue
         rep.add({'pusher': f.qualname, 'class': cls})
         if cls is None:
             rep.fail(f.qualname, 'unclassified-frame', 'pushes a state frame but is not classified as scope / barrier / '
@@ -362,7 +416,9 @@ def r3_frame_classification(a, tier):
                              f'that inner frame, the failure reaches the optional()/option() whose own frame saw no cut, and the '
                              f'repetition silently matches nothing instead of failing', f'{m.module.relpath}:{c.lineno}')
     # transparent frames: isolate, skipgroup
-    for iso in [a.p.func(q) for q, c in FRAME_CLASSES.items() if c.startswith('transparent')]:
+    todo = {q: a.p.func(q) for q, c in FRAME_CLASSES.items() if c.startswith('transparent')}
+    todo.update(derived_transparent)
+    for _q, iso in sorted(todo.items()):
         _check_transparent(a, rep, iso)
     # wrapper: statescope re-raises every FailedParse of its body after undo
     ss = a.p.func(f'{CORE}.statescope')
